@@ -5,7 +5,7 @@ objects and state classes, real `Settings` / `EventBus`) against scripted collab
 * `StubShares`  — every requested file exists (one small real file on disk)
 * `StubNetwork` — `send_peer_messages`, `create_peer_response_future`, `create_peer_connection`,
   `queue_server_messages`; every network step a transfer task takes is a *gate* the schedule decides:
-  succeed / fail / hang.  Everything is logged in order (`rig.log`):
+  succeed / fail / hang (incl. the file connection of a download: `deliver_file_connection`, offset, file data).  Everything is logged in order (`rig.log`):
       ('connect', k, att, cls)      a peer connection is requested on behalf of transfer k
       ('frame', k, att, cls)        a protocol message about transfer k left
       ('fileconn', k, att)          a file connection is requested for transfer k
@@ -100,8 +100,7 @@ class StubShares:
         return _Item(shared_file())
 
     def calculate_download_path(self, remote_path):
-        d = os.path.join(tempfile.gettempdir(), 'verif-xfer-dl')
-        return d, remote_path.replace('\\', '_')
+        return self.rig.download_dir, remote_path.replace('\\', '_')
 
     async def create_directory(self, path):
         os.makedirs(path, exist_ok=True)
@@ -161,6 +160,8 @@ class FakeConn:
             return
         k = rig.k_of_message(self.username, message)
         cls = type(message).__qualname__.split('.')[0]
+        if cls == 'PeerTransferReply' and k is None:
+            k = rig.dl_ticket.get(getattr(message, 'ticket', None))      # registered by the schedule's peer request
         if cls == 'PeerTransferReply' and k is not None and getattr(message, 'allowed', False):
             # our answer to the uploader's PeerTransferRequest: first network step of initialize-download
             att = rig.begin_attempt(k, 'dl-init', ticket=message.ticket)
@@ -304,6 +305,11 @@ class Rig:
         self.attempt_kind: dict = {}               # (k, att) -> 'ul-init' | 'dl-init' | 'queue-remotely'
         self.by_ticket: dict = {}
         self.task_ctx: dict = {}                   # task -> (k, att)
+        self.dl_ticket: dict = {}                  # ticket of a scripted PeerTransferRequest -> download index
+        self.attempt_ticket: dict = {}             # (k, att) -> ticket
+        # downloads are written below a per-process directory that every run starts (and ends) without
+        self.download_dir = os.path.join(tempfile.gettempdir(), f'verif-xfer-dl-{os.getpid()}')
+        self.cleanup()
         self.cycles = 0
         self.granularity: list = []                # broken scheduling assumptions seen by the cycle wrapper
         self._wrap_cycle()
@@ -330,8 +336,24 @@ class Rig:
         self.attempt_kind[(k, att)] = kind
         if ticket is not None:
             self.by_ticket[ticket] = (k, att)
+            self.attempt_ticket[(k, att)] = ticket
         self.task_ctx[asyncio.current_task()] = (k, att)
         return att
+
+    def cleanup(self):
+        import shutil
+        shutil.rmtree(self.download_dir, ignore_errors=True)
+
+    def deliver_file_connection(self, k) -> bool:
+        """The uploader opens the file connection for the current initialize-download attempt of download k and its
+        ticket arrives (what `_on_peer_initialized` does with it): the attempt's future gets the connection."""
+        att = self.attempts.get(k)
+        ticket = self.attempt_ticket.get((k, att))
+        fut = self.mgr._file_connection_futures.get(ticket)
+        if fut is None or fut.done():
+            return False
+        fut.set_result(FakeConn(self, self.transfers[k].username, k, att))
+        return True
 
     def ctx_of_task(self):
         return self.task_ctx.get(asyncio.current_task(), (None, None))
